@@ -175,6 +175,95 @@ theorem build_cons_fresh (K : Calc R S) (now : Nat) (r : R) (rs : List R) (old :
   · have := hs d0 (by rw [e]; simp)
     rw [this] at hd0; exact absurd hd0 Bool.false_ne_true
 
+/-- the index `reuseIdx` returns for an equal controller, in terms of a decomposition -/
+theorem reuseIdx_eq_mid (K : Calc R S) (r : R) (l1 : List (Ctl R S)) (c0 : Ctl R S) (l2 : List (Ctl R S))
+    (hl : ∀ x ∈ l1, K.eq x.rule r = false) (hc : K.eq c0.rule r = true) :
+    (reuseIdx K r (l1 ++ c0 :: l2) 0 none).1 = some l1.length := by
+  obtain ⟨m1, d0, m2, e, hm, hd0, hi⟩ := reuseIdx_finds K r (l1 ++ c0 :: l2) 0 none ⟨c0, by simp, hc⟩
+  have hlen : m1.length = l1.length := by
+    rcases Nat.lt_trichotomy m1.length l1.length with hlt | heq | hgt
+    · exfalso
+      have h1 : (l1 ++ c0 :: l2)[m1.length]? = some d0 := by rw [e]; exact getElem?_mid ..
+      rw [List.getElem?_append_left hlt] at h1
+      have : d0 ∈ l1 := List.mem_of_getElem? h1
+      rw [hl d0 this] at hd0; exact Bool.false_ne_true hd0
+    · exact heq
+    · exfalso
+      have h1 : (m1 ++ d0 :: m2)[l1.length]? = some c0 := by rw [← e]; exact getElem?_mid ..
+      rw [List.getElem?_append_left hgt] at h1
+      have : c0 ∈ m1 := List.mem_of_getElem? h1
+      rw [hm c0 this] at hc; exact Bool.false_ne_true hc
+  rw [hi, hlen]; simp
+
+theorem reuseIdx_stat_mid (K : Calc R S) (r : R) (l1 : List (Ctl R S)) (c0 : Ctl R S) (l2 : List (Ctl R S))
+    (he : ∀ x ∈ l1 ++ c0 :: l2, K.eq x.rule r = false)
+    (hl : ∀ x ∈ l1, K.sr x.rule r = false) (hc : K.sr c0.rule r = true) :
+    reuseIdx K r (l1 ++ c0 :: l2) 0 none = (none, some l1.length) := by
+  have h1 := reuseIdx_fst_none K r (l1 ++ c0 :: l2) 0 none he
+  rcases reuseIdx_snd K r (l1 ++ c0 :: l2) 0 he with ⟨_, hn⟩ | ⟨m1, d0, m2, e, hm, hd0, hi⟩
+  · have := hn c0 (by simp)
+    rw [this] at hc; exact absurd hc Bool.false_ne_true
+  · have hlen : m1.length = l1.length := by
+      rcases Nat.lt_trichotomy m1.length l1.length with hlt | heq | hgt
+      · exfalso
+        have h1 : (l1 ++ c0 :: l2)[m1.length]? = some d0 := by rw [e]; exact getElem?_mid ..
+        rw [List.getElem?_append_left hlt] at h1
+        have : d0 ∈ l1 := List.mem_of_getElem? h1
+        rw [hl d0 this] at hd0; exact Bool.false_ne_true hd0
+      · exact heq
+      · exfalso
+        have h1 : (m1 ++ d0 :: m2)[l1.length]? = some c0 := by rw [← e]; exact getElem?_mid ..
+        rw [List.getElem?_append_left hgt] at h1
+        have : c0 ∈ m1 := List.mem_of_getElem? h1
+        rw [hm c0 this] at hc; exact Bool.false_ne_true hc
+    rw [hlen] at hi
+    rcases hres : reuseIdx K r (l1 ++ c0 :: l2) 0 none with ⟨a, b⟩
+    rw [hres] at hi h1
+    simp only [Nat.zero_add] at hi h1
+    rw [hi, h1]
+
+theorem reuseIdx_none_none (K : Calc R S) (r : R) (old : List (Ctl R S))
+    (he : ∀ x ∈ old, K.eq x.rule r = false) (hs : ∀ x ∈ old, K.sr x.rule r = false) :
+    reuseIdx K r old 0 none = (none, none) := by
+  have h1 := reuseIdx_fst_none K r old 0 none he
+  rcases reuseIdx_snd K r old 0 he with ⟨h2, _⟩ | ⟨m1, d0, m2, e, _, hd0, _⟩
+  · rcases hres : reuseIdx K r old 0 none with ⟨a, b⟩
+    rw [hres] at h1 h2
+    simp only at h1 h2
+    rw [h1, h2]
+  · have := hs d0 (by rw [e]; simp)
+    rw [this] at hd0; exact absurd hd0 Bool.false_ne_true
+
+/-- the three ways one step of `noStealS` can go -/
+theorem noStealS_cons_eq (K : Calc R S) (r : R) (rs : List R) (l1 : List (Ctl R S)) (c0 : Ctl R S) (l2 : List (Ctl R S))
+    (hl : ∀ x ∈ l1, K.eq x.rule r = false) (hc : K.eq c0.rule r = true) :
+    noStealS K (r :: rs) (l1 ++ c0 :: l2) = noStealS K rs (l1 ++ l2) := by
+  have h := reuseIdx_eq_mid K r l1 c0 l2 hl hc
+  rcases hres : reuseIdx K r (l1 ++ c0 :: l2) 0 none with ⟨a, b⟩
+  rw [hres] at h
+  simp only at h
+  subst h
+  conv_lhs => rw [noStealS]
+  rw [hres]
+  simp only [eraseIdx_mid]
+
+theorem noStealS_cons_stat (K : Calc R S) (r : R) (rs : List R) (l1 : List (Ctl R S)) (c0 : Ctl R S) (l2 : List (Ctl R S))
+    (he : ∀ x ∈ l1 ++ c0 :: l2, K.eq x.rule r = false)
+    (hl : ∀ x ∈ l1, K.sr x.rule r = false) (hc : K.sr c0.rule r = true) :
+    noStealS K (r :: rs) (l1 ++ c0 :: l2)
+      = ((rs.all fun r' => !K.eq c0.rule r' && !K.eq c0.rule (K.norm r')) && noStealS K rs (l1 ++ l2)) := by
+  have hres := reuseIdx_stat_mid K r l1 c0 l2 he hl hc
+  conv_lhs => rw [noStealS]
+  rw [hres]
+  simp only [getElem?_mid, eraseIdx_mid]
+
+theorem noStealS_cons_fresh (K : Calc R S) (r : R) (rs : List R) (old : List (Ctl R S))
+    (he : ∀ x ∈ old, K.eq x.rule r = false) (hs : ∀ x ∈ old, K.sr x.rule r = false) :
+    noStealS K (r :: rs) old = noStealS K rs old := by
+  have hres := reuseIdx_none_none K r old he hs
+  conv_lhs => rw [noStealS]
+  rw [hres]
+
 /-- `noStealB` only gets easier with fewer candidates -/
 theorem noStealB_mono (K : Calc R S) (rs : List R) (old old' : List (Ctl R S)) (hsub : ∀ c ∈ old', c ∈ old)
     (h : noStealB K rs old = true) : noStealB K rs old' = true := by
